@@ -24,6 +24,10 @@ type FilterInst struct {
 	RegAtEpoch int
 }
 
+// Typed reports whether the filter was specified through the typed API (in the C14
+// twin it is then realised through the ID-based API, which must not change which ops apply).
+func (fi *FilterInst) Typed() bool { return fi.Spec.Ad >= 0 }
+
 // OpenQuery is a query held open across ops.
 type OpenQuery struct {
 	F, W     int
@@ -34,6 +38,7 @@ type OpenQuery struct {
 	Order    []int
 	Done     bool
 	OnEntity bool // cursor currently on an entity
+	Held     bool // opened by an OpenQuery op (as opposed to a sweep)
 	Steps    int
 }
 
